@@ -285,7 +285,9 @@ class Case:
             if V:
                 break
             # structural invariants of the tree after every operation that ends with an up-to-date tree
-            if cfg["module"] != "none" and op in ("step", "com"):
+            # (move_to_com shifts the particles behind the tree's back, possibly out of the box: only the boundary check and tree
+            #  update of the next step bring the tree up to date again)
+            if cfg["module"] != "none" and op == "step":
                 if cfg["module"] == "treegrav":
                     cl.reb_simulation_update_tree(ctypes.byref(sim))
                     cl.reb_simulation_update_tree_gravity_data(ctypes.byref(sim))
@@ -333,9 +335,11 @@ def run(ctx):
     refused = 0
     for (cfg, h), r in zip(tasks, res):
         case = {"cfg": cfg, "history": h}
+        # move_to_com() re-sorts many particles at once (boundary check + tree update inside the call): its failures are kept apart
+        com = ":after-move_to_com" if ("com" in h and cfg["module"] != "none") else ""
         if r[0] != "ok":
             frag = common.classify_crash(r[1])[0] if r[0] == "crash" else r[0]
-            ctx.violation("case-%s:%s:%s:%s" % (r[0], cfg["boundary"], cfg["module"], frag), "%s in %s/%s/%s parts=%s history %s: %s" % (r[0], cfg["boundary"], cfg["layout"], cfg["module"], cfg["parts"], h, str(r[1])[-600:]), case)
+            ctx.violation("case-%s:%s:%s:%s%s" % (r[0], cfg["boundary"], cfg["module"], frag, com), "%s in %s/%s/%s parts=%s history %s: %s" % (r[0], cfg["boundary"], cfg["layout"], cfg["module"], cfg["parts"], h, str(r[1])[-600:]), case)
             continue
         V, st = r[1]
         if st != "ok":
@@ -343,7 +347,7 @@ def run(ctx):
             continue
         states += len(h)
         for sig, what in V:
-            ctx.violation(sig, what, case)
+            ctx.violation(sig + com, what, case)
     cov = {
         "states": states, "transitions": states, "traces_validated_against_impl": len(tasks) - refused,
         "samples": [{"cfg": tasks[0][0], "history": tasks[0][1]}, {"cfg": tasks[-1][0], "history": tasks[-1][1]}],
